@@ -183,6 +183,7 @@ func analyseFor(p *asm.Prog) forFacts {
 }
 
 func runC08(c *Ctx) {
+	defer withDisturb(c)()
 	runPinned(c, "C08")
 	n := int64(72000)
 	if c.Thorough() {
@@ -199,8 +200,8 @@ func runC08(c *Ctx) {
 			cfg.CoreSize = 8000
 		}
 		cfg.Distance = 100
-		stratumBig := r.Chance(1, 5)   // 13..40 expansions
-		outside := r.Chance(1, 6)      // references to block labels from outside the block
+		stratumBig := r.Chance(1, 5) // 13..40 expansions
+		outside := r.Chance(1, 6)    // references to block labels from outside the block
 		o := asm.GenOpts{Cfg: cfg, MaxLines: 2 + r.Intn(8), UseLabels: true, UseEqus: r.Chance(1, 2), UseFor: true, MaxForExp: 10, OutsideRef: outside, NestedLabel: r.Chance(1, 6)}
 		if stratumBig {
 			o.MaxForExp = 38
